@@ -452,7 +452,7 @@ func (c *Check) oneOpenPerConnection(rule string) {
 			c.require(ok, rule, p.Name(fn), "sendOpenAndSetHoldTimer call", p.InstrPos(cl.(ssa.Instruction)), "an OPEN is sent once per connection: right after the connection is obtained, as the state's final action")
 		}
 	}
-	c.floor(rule, n, 3, "sendOpenAndSetHoldTimer call sites")
+	c.floor(rule, n, 1, "sendOpenAndSetHoldTimer call sites")
 }
 
 // inLoopBody: the call is followed by a return on every path (it is the
